@@ -527,6 +527,17 @@ class Interp:
         full = _dotted(fn)
         if full in self.extra_calls:
             return self.extra_calls[full](*args, **kwargs)
+        if isinstance(fn, ast.Name) and fn.id in ('setattr', 'delattr') and fn.id not in env and len(args) >= 2 and isinstance(args[1], str):
+            o = args[0]
+            if isinstance(o, Obj):
+                if fn.id == 'setattr':
+                    o.attrs[args[1]] = args[2]
+                else:
+                    o.attrs.pop(args[1], None)
+                return None
+            if _is_model(o):
+                return setattr(o, args[1], args[2]) if fn.id == 'setattr' else delattr(o, args[1])
+            raise Unsupported('%s on %s' % (fn.id, type(o).__name__))
         if isinstance(fn, ast.Name) and fn.id in ('hasattr', 'getattr', 'vars') and fn.id not in env and args:
             o = args[0]
             if _is_model(o) or _foreign(self, o):
